@@ -184,20 +184,26 @@ Proof.
   - split; [|exact Hout]. intros j Hj. rewrite Hin by exact Hj. apply nth_as_wires_bw. exact Hj.
 Qed.
 
-Theorem bitfield_update_int_spec : forall w s e v r,
-  bitfield_update_int w s e v = Some r ->
+Theorem bitfield_update_int_spec : forall w s e v tr r,
+  bitfield_update_int w s e v tr = Some r ->
   let idx := pyslice (seq 0 (length w)) s e in
   idx <> [] /\ length r = length w /\
-  0 <= v < 2 ^ Z.of_nat (length idx) /\
+  (0 <= v < 2 ^ Z.of_nat (length idx) \/ tr = true) /\
   (forall j, (j < length idx)%nat -> nth (nth j idx 0%nat) r false = Z.testbit v (Z.of_nat j)) /\
   (forall i, ~ In i idx -> nth i r false = nth i w false).
 Proof.
-  intros w s e v r H idx. unfold bitfield_update_int in H.
+  intros w s e v tr r H idx. unfold bitfield_update_int in H.
   destruct (bitfield_core_spec _ _ _ _ _ H) as (Hne & Hlen & nv' & Hc & Hl & Hin & Hout).
   fold idx in Hne, Hc, Hl, Hin, Hout. unfold conv_int in Hc.
-  destruct ((0 <=? v) && (v <? 2 ^ Z.of_nat (length idx))) eqn:E; [|discriminate]. injection Hc as <-.
-  split; [exact Hne|]. split; [exact Hlen|]. split; [lia|]. split; [|exact Hout].
-  intros j Hj. rewrite Hin by exact Hj. apply nth_of_Z. exact Hj.
+  set (bw := length idx) in *.
+  set (v' := if tr then Z.land v (2 ^ Z.of_nat bw - 1) else v) in *.
+  destruct ((0 <=? v') && (v' <? 2 ^ Z.of_nat bw)) eqn:E; [|discriminate]. injection Hc as <-.
+  split; [exact Hne|]. split; [exact Hlen|]. split.
+  - destruct tr; [right; reflexivity|left; unfold v' in E; lia].
+  - split; [|exact Hout]. intros j Hj. rewrite Hin by exact Hj. rewrite nth_of_Z by exact Hj.
+    unfold v'. destruct tr; [|reflexivity].
+    replace (2 ^ Z.of_nat bw - 1) with (Z.ones (Z.of_nat bw)) by (rewrite Z.ones_equiv; lia).
+    rewrite Z.land_spec, Z.ones_spec_low by lia. apply andb_true_r.
 Qed.
 
 (* ---------- bitfield_update_set ---------- *)
@@ -327,4 +333,85 @@ Proof.
   apply bfus_rec_spec in H; [|apply repeat_length].
   destruct H as (R1 & _ & R3 & R4 & R5). split; [exact R1|]. split; [|split; assumption].
   intros u Hu. destruct (R3 u Hu) as (U1 & U2 & _ & U4). cbv zeta. tauto.
+Qed.
+
+(* ---------- no spurious errors ---------- *)
+Lemma lower_part (w : bits) a' : (a' <= length w)%nat ->
+  (match pyslice (seq 0 (length w)) None (Some (Z.of_nat a')) with
+   | [] => []
+   | l0 :: _ => pyslice w (Some (Z.of_nat l0))
+       (Some (Z.of_nat (last (pyslice (seq 0 (length w)) None (Some (Z.of_nat a'))) 0%nat) + 1))
+   end) = firstn a' w.
+Proof.
+  intros Ha. rewrite pyslice_None_nat. rewrite seq_length.
+  rewrite Nat.min_l by lia. rewrite firstn_seq'. rewrite Nat.min_l by lia.
+  destruct a' as [|a'']; [reflexivity|]. cbn [seq]. change (0%nat :: seq 1 a'') with (seq 0 (S a'')).
+  rewrite last_seq. cbn [Nat.add].
+  replace (Z.of_nat a'' + 1) with (Z.of_nat (S a'')) by lia.
+  rewrite pyslice_nat_nat.
+  rewrite Nat.min_0_l. rewrite Nat.min_l by lia. cbn [skipn]. rewrite Nat.sub_0_r. reflexivity.
+Qed.
+
+Lemma upper_part (w : bits) b' : (b' <= length w)%nat ->
+  (match pyslice (seq 0 (length w)) (Some (Z.of_nat b')) None with
+   | [] => []
+   | u0 :: _ => pyslice w (Some (Z.of_nat u0))
+       (Some (Z.of_nat (last (pyslice (seq 0 (length w)) (Some (Z.of_nat b')) None) 0%nat) + 1))
+   end) = skipn b' w.
+Proof.
+  intros Hb. rewrite pyslice_nat_None. rewrite seq_length.
+  rewrite Nat.min_l by lia. rewrite skipn_seq'. cbn [Nat.add].
+  destruct (length w - b')%nat as [|m] eqn:Em.
+  - cbn [seq]. symmetry. apply skipn_all2. lia.
+  - cbn [seq]. change (b' :: seq (S b') m) with (seq b' (S m)). rewrite last_seq.
+    replace (Z.of_nat (b' + m) + 1) with (Z.of_nat (length w)) by lia.
+    rewrite pyslice_nat_nat.
+    rewrite Nat.min_id. rewrite Nat.min_l by lia.
+    apply firstn_all2. rewrite skipn_length. lia.
+Qed.
+
+(* closed form of the whole function *)
+Lemma bitfield_core_eq w s e conv :
+  let a := fst (slice_bounds (length w) s e) in
+  let b := snd (slice_bounds (length w) s e) in
+  bitfield_update_core w s e conv =
+  if Nat.leb b a then None else
+  match conv (b - a)%nat with
+  | None => None
+  | Some nv' => if Nat.eqb (b - a) (length nv') then Some (firstn a w ++ nv' ++ skipn b w) else None
+  end.
+Proof.
+  intros a b. unfold bitfield_update_core. rewrite pyslice_seq. fold a b.
+  pose proof (slice_bounds_le (length w) s e) as Hb.
+  destruct (slice_bounds (length w) s e) as [a' b'] eqn:Esb. cbn [fst snd] in a, b. subst a b.
+  destruct Hb as [Ha Hb]. rewrite !seq_length.
+  destruct (Nat.leb b' a') eqn:Ele.
+  - apply Nat.leb_le in Ele. replace (b' - a')%nat with 0%nat by lia. reflexivity.
+  - apply Nat.leb_gt in Ele. destruct (b' - a')%nat as [|k] eqn:Ek; [lia|].
+    rewrite !last_seq. cbn [seq].
+    destruct (conv (S k)) as [nv'|]; [|reflexivity].
+    destruct (Nat.eqb (S k) (length nv')) eqn:El; cbn [negb]; [|reflexivity].
+    apply Nat.eqb_eq in El.
+    replace (Z.of_nat (a' + k) + 1) with (Z.of_nat b') by lia.
+    rewrite (lower_part w a' Ha), (upper_part w b' Hb).
+    replace (Nat.eqb (length (firstn a' w ++ nv' ++ skipn b' w)) (length w)) with true; [reflexivity|].
+    symmetry. apply Nat.eqb_eq. rewrite !app_length, firstn_length, skipn_length. lia.
+Qed.
+
+(* bitfield_update does not raise when the addressed slice is non-empty and the
+   new value fits (or truncating=True) *)
+Theorem bitfield_update_ok : forall w s e nv tr,
+  pyslice (seq 0 (length w)) s e <> [] ->
+  (length nv <= length (pyslice (seq 0 (length w)) s e) \/ tr = true)%nat ->
+  bitfield_update w s e nv tr <> None.
+Proof.
+  intros w s e nv tr Hne Hfit. unfold bitfield_update. rewrite bitfield_core_eq.
+  rewrite pyslice_seq in Hne, Hfit. rewrite seq_length in Hfit.
+  set (a := fst (slice_bounds (length w) s e)) in *. set (b := snd (slice_bounds (length w) s e)) in *.
+  destruct (Nat.leb b a) eqn:E.
+  - apply Nat.leb_le in E. exfalso. apply Hne. replace (b - a)%nat with 0%nat by lia. reflexivity.
+  - rewrite length_as_wires_bw.
+    replace (Nat.eqb (b - a) _) with true; [discriminate|]. symmetry. apply Nat.eqb_eq.
+    destruct (Nat.ltb (length nv) (b - a)) eqn:E1; [reflexivity|]. apply Nat.ltb_ge in E1.
+    destruct tr; [reflexivity|]. destruct Hfit as [H|H]; [lia|discriminate].
 Qed.
